@@ -53,6 +53,22 @@ theorem items_of_joined (es : List Bytes) (hg : ∀ e ∈ es, GoodItem e) (hc : 
     | nil => simp [joinItems]
     | cons b r' => simp [joinItems]
 
+/-- The iteration is never cut short: when `strListGetItem` reports the end, only separator octets (white space, commas)
+are left. (Before `delim[2]` was repaired an element consisting of VT/FF ended the list; the set is regenerated from
+src/StrList.cc, so this theorem fails to check if the repair is undone.) -/
+theorem items_complete (pos : Bytes) (h : getItem pos = none) : ∀ c ∈ pos, isLeadDelim c = true :=
+  getItem_none pos h
+
+/-- … hence after the last item of a value (or from the start, if there is none) nothing but separators follows. -/
+theorem items_cover_value (s : Bytes) :
+    ∃ tail, (∀ c ∈ tail, isLeadDelim c = true) ∧ (items s = [] → tail = s) ∧
+      (∀ it ∈ (items s).getLast?, ∃ k, tail = it.1.drop k ∧ it.2 ≤ k) :=
+  itemsAux_complete _ s (Nat.le_refl _)
+
+/-- the numeric model transcribes the `strtol` + range-check version of `httpHeaderParseInt`; the translator confirms that this
+is what src/HttpHeaderTools.cc contains -/
+theorem parseInt_model_matches_source : Gen.CcDirectives.parseIntRangeChecked = true := by decide
+
 /-- A known flag is recorded iff some item carries its name. -/
 theorem flag_present_iff (s : Bytes) (t : CcType) (hf : isFlagType t = true) :
     (parse s).isSet t = true ↔ ∃ it ∈ items s, itemType it = t := by
@@ -209,6 +225,8 @@ example : GoodItem [112,117,98,108,105,99] := ⟨by decide, by decide, by decide
 example : ¬ NoNumber [49, 48, 120] := by unfold NoNumber; decide
 example : NoNumber [120, 49] := by unfold NoNumber; decide
 example : isPlainQ 97 = true ∧ isPlainQ 44 = true ∧ isPlainQ 32 = true := by decide
+/-- `public, <VT>, no-store`: the VT element is skipped, both directives are seen -/
+example : view (parse [112,117,98,108,105,99,44,32,11,44,32,110,111,45,115,116,111,114,101]) .noStore = some .flag := by decide +kernel
 /-- the round-trip hypothesis is satisfiable, and the round trip is not trivially about empty states -/
 example : (parse wMixed).mask ≠ 0 := by decide +kernel
 example : pack (parse wMixed) = wMixed := by decide +kernel
